@@ -160,7 +160,10 @@ func (ip *Interp) installAllocMonitor(p *Path, cfg *HarnessConfig) {
 			return
 		}
 		// prefer a witness whose request is small enough to replay natively
-		res, m := ip.query(st.AndAll(st.Not(ok), st.Cmp(OpULe, bytes, st.Const(64, 256<<20)), st.Cmp(OpULe, st.Const(64, 8<<20), bytes)))
+		res, m := ip.query(st.AndAll(st.Not(ok), st.Cmp(OpULe, bytes, st.Const(64, 256<<20)), st.Cmp(OpULe, st.Const(64, 64<<20), bytes)))
+		if res != Sat {
+			res, m = ip.query(st.AndAll(st.Not(ok), st.Cmp(OpULe, bytes, st.Const(64, 256<<20)), st.Cmp(OpULe, st.Const(64, 8<<20), bytes)))
+		}
 		if res != Sat {
 			res, m = ip.query(st.And(st.Not(ok), st.Cmp(OpULe, bytes, st.Const(64, 256<<20))))
 		}
